@@ -111,15 +111,61 @@ A = {
 }
 
 
-def arg_text(names: Sequence[str]) -> str:
-    return ' '.join(A[n][0] for n in names)
+def atom(n):
+    """an argument atom: a name in A, or the pair (source text, [value, ...]) itself"""
+    return A[n] if isinstance(n, str) else n
 
 
-def arg_values(names: Sequence[str]) -> list:
+def arg_text(names: Sequence) -> str:
+    return ' '.join(atom(n)[0] for n in names)
+
+
+def arg_values(names: Sequence) -> list:
     out = []
     for n in names:
-        out += A[n][1]
+        out += atom(n)[1]
     return out
+
+
+# ----------------------------------------------------------------------------- quoted option-like and reserved words
+# "Quoting is how a word that has a meaning in the syntax is given as a plain string": a token written inside soft
+# ("...") or hard ('...') quotes denotes the characters between the quotes (none of the words below contains a quote
+# character, a backslash or a symbol reference) - whatever the word would mean unquoted.
+QUOTED_WORD_GROUPS = (
+    ('options of PROGRAM-ARGUMENT', ('-existing-file', '-existing-dir', '-existing-path')),
+    ('options of PROGRAM, TEXT-SOURCE and of the instructions that take a PROGRAM',
+     ('-python', '-stdin', '-transformed-by', '-ignore-exit-code', '-contents-of', '-stdout-from', '-stderr-from',
+      '-from', '-of')),
+    ('relativity options of PATH',
+     ('-rel-home', '-rel-act-home', '-rel-act', '-rel-tmp', '-rel-result', '-rel-cd', '-rel-here', '-rel')),
+    ('markers and program tokens', (':>', '<<EOF', '<<', '%', '$', '@', '#')),
+    ('reserved words', ('(', ')', '[', ']', '{', '}', '=', '|', ':', '!', '&&', '||')),
+)
+QUOTED_WORDS = tuple(w for _g, ws in QUOTED_WORD_GROUPS for w in ws)
+QUOTES = ("'", '"')  # hard, soft
+
+
+def quoted(word: str, quote: str) -> str:
+    """the source text of `word` written inside quotes"""
+    assert quote in QUOTES and not any(c in word for c in ('"', "'", '\\', '@[')), word
+    return quote + word + quote
+
+
+def quoted_atom(word: str, quote: str):
+    """PROGRAM-ARGUMENT: the quoted word denotes ONE argument, the word"""
+    return (quoted(word, quote), [[C(word)]])
+
+
+def quoted_text_source(word: str, quote: str):
+    """TEXT-SOURCE (as the -stdin of a PROGRAM, or of `stdin = `): the quoted word denotes the text that is the word"""
+    return (quoted(word, quote), [C(word)], None)
+
+
+def generator_with_args(channel: str, args: Sequence):
+    """TEXT-SOURCE `-stdout-from % gen ARGS` / `-stderr-from % gen ARGS`: the output of a program (ends the line)"""
+    assert channel in ('stdout', 'stderr')
+    return ('-%s-from %% gen %s' % (channel, arg_text(args)), [C(GEN_OUT if channel == 'stdout' else GEN_ERR)],
+            ([[C('gen')]] + arg_values(args), None))
 
 
 # ----------------------------------------------------------------------------- text sources (stdin)
@@ -127,6 +173,11 @@ def arg_values(names: Sequence[str]) -> list:
 #          generates the text)
 GEN_OUT = 'generated line 1\ngenerated 2'
 FILE_TXT = 'contents of f.txt\nline 2\n'
+
+def text_source(t):
+    """a text source: a name in T, or the triple (source text, value, generator or None) itself"""
+    return T[t] if isinstance(t, str) else t
+
 
 T = {
     'string': ('"text of @[S2]@ stdin"', [C('text of '), S(2), C(' stdin')], None),
@@ -217,7 +268,7 @@ class Pgm:
                 first += ' ' + arg_text(self.args)
         lines = [first]
         if self.stdin is not None:
-            src = T[self.stdin][0]
+            src = text_source(self.stdin)[0]
             if self.trans is not None:
                 # TEXT-SOURCE itself may end with `-transformed-by`: an output transformation of the PROGRAM that
                 # follows an unparenthesized -stdin would be read as part of the TEXT-SOURCE
@@ -256,9 +307,9 @@ def denote(p: Pgm, defs: Dict[str, Pgm]) -> Den:
         d = Den(True, [p.head_value if p.head_value is not None else [C(p.head)]], [], [], [])
     d.argv += arg_values(p.args)
     if p.stdin is not None:
-        d.stdin.append(T[p.stdin][1])
-        if T[p.stdin][2] is not None:
-            d.gens.append(T[p.stdin][2])
+        d.stdin.append(text_source(p.stdin)[1])
+        if text_source(p.stdin)[2] is not None:
+            d.gens.append(text_source(p.stdin)[2])
     if p.trans is not None:
         d.trans.append(p.trans)
     return d
